@@ -230,8 +230,16 @@ def m_len(interp, v):
     if isinstance(v, SArr):
         return v.count
     if isinstance(v, SStr):
+        # len() of a str counts code points: a surrogate pair is two UTF-16 code units but one character, so the
+        # length of decoded text is only known to lie in [ceil(units/2), units]
         n = v.raw.length()
-        return n // 2 if isinstance(n, int) else sym.floordiv(n, 2)  # BMP assumption
+        units = n // 2 if isinstance(n, int) else sym.floordiv(n, 2)
+        if isinstance(units, int) and units <= 1:
+            return units
+        sq = v.raw.seq()
+        k = z3.Function(f"codepoints_{v.endian}", sq.sort(), z3.IntSort())(sq)
+        interp.ctx.assume(z3.And(2 * k >= zint(units), k <= zint(units), k >= 0))
+        return k
     if isinstance(v, (list, tuple, dict, set)):
         return len(v)
     raise Unsupported(f"len of {type(v).__name__}")
@@ -682,6 +690,8 @@ def swap16(interp, raw: SBytes) -> SBytes:
 def m_bytes_join(interp, sep, parts):
     if sep != b"":
         raise Unsupported("join with separator")
+    if hasattr(parts, "_pyvc_join"):
+        return parts._pyvc_join(interp)
     out = SBytes([])
     for p in parts:
         out = out.concat(SBytes.of(p))
